@@ -100,9 +100,21 @@ CopyX(t, src, dst, shallow, noattrs) ==
                \cup {[strip(n) EXCEPT !.p = Rebase(n.p, src, dst)] : n \in part})
     ELSE Fail(t)
 
-(* require_dataset with matching shape and type: returns the existing dataset, *)
-(* creates it when absent, fails if a group is in the way                     *)
+(* require_dataset(shape=(), dtype=int64): returns an existing dataset whose    *)
+(* shape matches and to whose type int64 casts safely (h5py's rule; of the     *)
+(* value pool: the scalar int, float, text and byte-string values, not the     *)
+(* arrays, the bool and the opaque values), refuses any other existing         *)
+(* dataset, creates it when absent, fails if a group is in the way             *)
+ScalarIntLike == {"v1", "v2", "v4", "v8"}
 RequireDataset(t, p, val) ==
+    IF IsData(t, p) THEN (IF NodeAt(t, p).v \in ScalarIntLike THEN Ok(t) ELSE Fail(t))
+    ELSE IF Has(t, p) THEN Fail(t)
+    ELSE SetDataset(t, p, val)
+
+(* Named deviation of the IH5 drivers: IH5Group.require_dataset returns any      *)
+(* existing dataset without looking at shape or type ("TODO: check dimensions" *)
+(* in overlay.py); outside the operation vocabulary of C01/C09.                 *)
+RequireDatasetUnchecked(t, p, val) ==
     IF IsData(t, p) THEN Ok(t)
     ELSE IF Has(t, p) THEN Fail(t)
     ELSE SetDataset(t, p, val)
@@ -134,7 +146,8 @@ Apply(t, e) ==
       [] e.op = "move"          -> Move(t, e.p, e.q)
       [] e.op = "require_group" -> RequireGroup(t, e.p)
       [] e.op = "copyx"         -> CopyX(t, e.p, e.q, e.shallow, e.noattrs)
-      [] e.op = "require_dataset" -> RequireDataset(t, e.p, e.v)
+      [] e.op = "require_dataset" -> IF e.drv = "h5" THEN RequireDataset(t, e.p, e.v)
+                                     ELSE RequireDatasetUnchecked(t, e.p, e.v)
       [] OTHER                  -> Ok(t)       \* observations and boundaries: stutter
 
 (* Observations derived from a tree.                                        *)
